@@ -59,6 +59,11 @@ theorem inv3d_dSend (s s' : State) (i : Nat) (hI : Inv3d s) (h : step cfg s (.dS
   simp only [step] at h
   (repeat' split at h) <;> close_case3
 
+theorem inv3d_uFail (s s' : State) (i : Nat) (hI : Inv3d s) (h : step cfg s (.uFail i) = some s') : Inv3d s' := by
+  obtain ⟨u1⟩ := hI
+  simp only [step] at h
+  (repeat' split at h) <;> close_case3
+
 theorem inv3d_cleanup (s s' : State) (i : Nat) (hI : Inv3d s) (h : step cfg s (.cleanup i) = some s') : Inv3d s' := by
   obtain ⟨u1⟩ := hI
   simp only [step] at h
@@ -106,6 +111,7 @@ theorem inv3d_step (s s' : State) (e : Ev) (hI : Inv3d s) (h : step cfg s e = so
   | dTimeout i => exact inv3d_dTimeout cfg s s' i hI h
   | dPacket i => exact inv3d_dPacket cfg s s' i hI h
   | dSend i => exact inv3d_dSend cfg s s' i hI h
+  | uFail i => exact inv3d_uFail cfg s s' i hI h
   | cleanup i => exact inv3d_cleanup cfg s s' i hI h
   | uRecv i k => exact inv3d_uRecv cfg s s' i k hI h
   | uStep i => exact inv3d_uStep cfg s s' i hI h
